@@ -31,7 +31,12 @@ pub struct Case {
     /// which the stream goes on and the caller keeps reading: no wrong byte and no false end of body may result
     #[serde(default)]
     pub hiccups: Vec<(u16, u8)>,
+    /// index into STATUSES (redirect following stays on: none of these is followed)
+    #[serde(default)]
+    pub status: u8,
 }
+
+pub const STATUSES: &[u16] = &[200, 200, 200, 200, 201, 206, 404, 500, 300, 305, 226, 599];
 
 pub struct C01;
 
@@ -184,9 +189,9 @@ segmentation x caller read plan), run through send() on a scripted transport; no
             gen::read_plan(),
             proptest::collection::vec(gen::read_size(), 0..4),
             0u8..5,
-            prop_oneof![5 => Just(vec![]), 1 => proptest::collection::vec((any::<u16>(), 0u8..3), 1..3)],
+            (prop_oneof![5 => Just(vec![]), 1 => proptest::collection::vec((any::<u16>(), 0u8..3), 1..3)], 0u8..STATUSES.len() as u8),
         )
-            .prop_map(|(payload, framing, hdr_style, trailing, seg, reads, after_eof, neutral_headers, hiccups)| Case {
+            .prop_map(|(payload, framing, hdr_style, trailing, seg, reads, after_eof, neutral_headers, (hiccups, status))| Case {
                 payload,
                 framing,
                 hdr_style,
@@ -196,13 +201,15 @@ segmentation x caller read plan), run through send() on a scripted transport; no
                 after_eof,
                 neutral_headers,
                 hiccups,
+                status,
             })
             .boxed()
     }
 
     fn check(case: &Case, ctx: &mut Ctx) -> Outcome {
         let payload = case.payload.bytes();
-        let mut built = build_response(200, &neutral_headers(case.neutral_headers), &case.framing, case.hdr_style, &payload);
+        let status = STATUSES[case.status as usize % STATUSES.len()];
+        let mut built = build_response(status, &neutral_headers(case.neutral_headers), &case.framing, case.hdr_style, &payload);
         let framed = !matches!(case.framing, Framing::Close);
         if framed {
             match &case.trailing {
@@ -226,7 +233,8 @@ segmentation x caller read plan), run through send() on a scripted transport; no
             Ok(r) => r,
             Err(e) => return Outcome::fail("C01:send-failed", format!("send() failed on a well-formed response: {e:?}")),
         };
-        ensure!(resp.status().as_u16() == 200, "C01:status", "status {}", resp.status());
+        ensure!(resp.status().as_u16() == status, "C01:status", "status {}", resp.status());
+        ctx.label_if(status / 100 == 3, "status-3xx-not-followed");
 
         let consumed = consume(resp, &case.reads, &case.after_eof, payload.len());
         let mut nreads = 1;
